@@ -7,11 +7,14 @@ from vf.gen import pick_weighted
 ID = "C33"
 THEOREMS = ["C33_isolated", "C33_shared", "C33_own_read", "C33_common_keeps_private", "C33_private_paths",
             "C33_common_paths", "C33_routing_eq_families", "C33_per_worktree_refs_refuted", "C33_bisect_refuted",
-            "C33_routing_refuted", "C33_add_files"]
+            "C33_routing_refuted", "C33_add_files", "C33_open_pointer_never_main", "C33_open_gone_fails",
+            "C33_gitdir_files_are_pointers"]
 MODEL_FILES = ["WtRoute.v"]
 MODELLED = ("storage/filesystem/dotgit/repository_filesystem.go mapToRepositoryFsByPath for clean relative paths (exact "
             "exceptions, first path element) and the dual filesystem it induces; x/plumbing/worktree Add: name rule and "
-            "the commondir / gitdir / HEAD / .git files (Model/WtRoute.v); spec: git's path.c common_list with longest "
+            "the commondir / gitdir / HEAD / .git files; Worktree.Open / getDualFS: parsing of the worktree's .git file "
+            "(1024-byte limit, 9-byte minimum, the `gitdir` prefix, TrimSpace, relative pointers) and the decision "
+            "dual filesystem / main storage / error (Model/WtRoute.v); spec: git's path.c common_list with longest "
             "match and .lock stripping (Spec/GitCommonDir.v); not modelled: absolute paths and filepath.Clean, "
             "Checkout into the new worktree (C25), Remove/List/Init, the storage behind the filesystem")
 TRUSTED = [
@@ -134,6 +137,16 @@ class Layout(Suite):
         cases = []
         names = ["lw1", "a-b", "X9", "feature", "w", "-x", "0"]
         bad = ["a/b", "a b", "", "a.b", "é", "a_b", ".."]
+        # Remove -> Open again, and damaged admin data: every family in every run (both tiers)
+        damages = ["removed", "admin-deleted", "dotgit-dangling", "dotgit-elsewhere", "dotgit-relative", "dotgit-relative-gone",
+                   "dotgit-crlf", "gitdir-missing", "gitdir-dangling", "gitdir-elsewhere", "commondir-missing",
+                   "commondir-dangling", "commondir-elsewhere", "head-missing", "none"]
+        reps = 1 if tier == "quick" else 4
+        for d in damages * reps:
+            steps = [rng.choice(["commit", "reset", "add", "checkout"]) for _ in range(rng.randrange(1, 4))]
+            if d in ("removed", "admin-deleted") and "commit" not in steps:
+                steps.insert(0, "commit")
+            cases.append({"bucket": "reopen-" + d, "op": "reopen", "damage": d, "steps": steps})
         for k in range(n):
             r = k % 7
             if r < 3:
@@ -149,6 +162,15 @@ class Layout(Suite):
         return cases
 
     def model_expr(self, c):
+        if c["op"] == "reopen":
+            hx = lambda b: '"%s"' % b.hex()
+            d = c["damage"]
+            admin = b"/R/w/.git/worktrees/wa"
+            dotgit = {"dotgit-dangling": b"gitdir: /R/w/.git/worktrees/nosuch\n", "dotgit-elsewhere": b"gitdir: /R/other/.git/worktrees/wa\n",
+                      "dotgit-relative": b"gitdir: ../w/.git/worktrees/wa\n", "dotgit-relative-gone": b"gitdir: ../w/.git/worktrees/wa\n",
+                      "dotgit-crlf": b"gitdir: " + admin + b" \r\n"}.get(d, b"gitdir: " + admin + b"\n")
+            ok = d not in ("removed", "admin-deleted", "dotgit-dangling", "dotgit-elsewhere", "dotgit-relative-gone", "head-missing")
+            return "c33_open %s (Some %s) %s" % (hx(b"/R/wa"), hx(dotgit), coq_bool(ok))
         if c["op"] != "layout":
             return None
         hx = lambda s: '"%s"' % s.encode().hex()
@@ -183,6 +205,21 @@ class Layout(Suite):
                     why.append("git error: %s %s" % (ex.get("fsck_err"), ex.get("worktree_list_err")))
                 if why:
                     fails[c["id"]] = "; ".join(why)
+            elif c["op"] == "reopen":
+                # either Open fails, or nothing done through the returned repository changes any OTHER worktree's
+                # HEAD, branch, index, files or status (observed through git)
+                if not isinstance(ex, dict) or "after" not in ex:
+                    fails[c["id"]] = "scenario failed: %s %s" % (r["out"], ex)
+                    continue
+                why = []
+                for n in ("main", "wb"):
+                    if ex["before"][n] != ex["after"][n]:
+                        diff = {k: (str(ex["before"][n][k])[:80], str(ex["after"][n][k])[:80]) for k in ex["before"][n] if ex["before"][n][k] != ex["after"][n][k]}
+                        why.append("worktree %s changed through the re-opened wa (%s, opened as %s): %s" % (n, c["damage"], r["out"], diff))
+                if c["damage"] in ("none", "dotgit-crlf", "dotgit-relative") and r["out"] != "dual":
+                    why.append("an intact linked worktree is not opened on its own admin directory: %s %s" % (r["out"], ex.get("open_err")))
+                if why:
+                    fails[c["id"]] = "; ".join(why)[:700]
             else:
                 if not isinstance(ex, dict) or "after" not in ex:
                     fails[c["id"]] = "scenario failed: %s %s" % (r["out"], ex)
